@@ -83,7 +83,9 @@ func (n *Tree[T]) Remove(value T) bool {
 	}
 	newRoot, ok := n.root.remove(value, n.compare)
 	n.root = newRoot
-	n.count--
+	if ok {
+		n.count--
+	}
 	return ok
 }
 
